@@ -39,6 +39,8 @@ type generator struct {
 	used   map[string]bool // Go-cased identifiers in use, program-wide
 	serial int
 	defIdx int
+	topIn  map[*File]map[string]bool // Go-cased top-level names per file
+	topAll []string
 }
 
 var wordPool = []string{"alpha", "bravo", "cargo", "delta", "ember", "frost", "gamma", "hotel", "index",
@@ -82,6 +84,29 @@ func (g *generator) fresh(style int) string {
 
 func (g *generator) typeName() string {
 	return g.fresh(g.r.Pick(0, 0, 0, 1, 2, 3, 4, 5))
+}
+
+// topName names a type or service of file f: usually fresh, sometimes a name
+// that another file already uses for one of its own types or services (every
+// file is its own scope and its own Go package, so this is no clash).
+func (g *generator) topName(f *File) string {
+	if g.topIn == nil {
+		g.topIn = map[*File]map[string]bool{}
+	}
+	if g.topIn[f] == nil {
+		g.topIn[f] = map[string]bool{}
+	}
+	if len(g.topAll) > 0 && g.r.Chance(1, 6) {
+		n := g.topAll[g.r.Intn(len(g.topAll))]
+		if !g.topIn[f][GoCase(n)] {
+			g.topIn[f][GoCase(n)] = true
+			return n
+		}
+	}
+	n := g.typeName()
+	g.topIn[f][GoCase(n)] = true
+	g.topAll = append(g.topAll, n)
+	return n
 }
 func (g *generator) fieldName() string {
 	return g.fresh(g.r.Pick(1, 1, 2, 2, 4, 4, 3, 6))
@@ -267,7 +292,7 @@ func (g *generator) fillFile(f *File) {
 	pre := make([]*Def, len(kinds))
 	for i, k := range kinds {
 		if k == Struct || k == Union || k == Exception {
-			pre[i] = &Def{File: f, Name: g.typeName(), Kind: k, GoName: g.goNameAnn()}
+			pre[i] = &Def{File: f, Name: g.topName(f), Kind: k, GoName: g.goNameAnn()}
 		}
 	}
 	for i, k := range kinds {
@@ -276,7 +301,7 @@ func (g *generator) fillFile(f *File) {
 		case Enum:
 			d = g.genEnum(f)
 		case Typedef:
-			d = &Def{File: f, Name: g.typeName(), Kind: Typedef, GoName: g.goNameAnn(), complete: true}
+			d = &Def{File: f, Name: g.topName(f), Kind: Typedef, GoName: g.goNameAnn(), complete: true}
 			for {
 				d.Target = g.genType(f, g.cfg.Depth, nil)
 				// a typedef of a typedef must not lead to a struct from which a forward
@@ -317,7 +342,7 @@ func (g *generator) fillFile(f *File) {
 }
 
 func (g *generator) genEnum(f *File) *Def {
-	d := &Def{File: f, Name: g.typeName(), Kind: Enum, GoName: g.goNameAnn(), complete: true}
+	d := &Def{File: f, Name: g.topName(f), Kind: Enum, GoName: g.goNameAnn(), complete: true}
 	r := g.r
 	n := 1 + r.Intn(6)
 	if r.Chance(1, 12) {
@@ -711,7 +736,7 @@ func (g *generator) genConst(f *File) {
 
 func (g *generator) genService(f *File) {
 	r := g.r
-	s := &Service{File: f, Name: g.typeName()}
+	s := &Service{File: f, Name: g.topName(f)}
 	var parents []*Service
 	for _, inc := range f.Includes {
 		parents = append(parents, inc.Services...)
@@ -719,6 +744,12 @@ func (g *generator) genService(f *File) {
 	parents = append(parents, f.Services...)
 	if len(parents) > 0 && r.Chance(2, 3) {
 		s.Parent = parents[r.Intn(len(parents))]
+		// a service named like the (included) service it extends
+		if p := s.Parent; p.File != f && r.Chance(1, 3) && !g.topIn[f][GoCase(p.Name)] {
+			delete(g.topIn[f], GoCase(s.Name))
+			s.Name = p.Name
+			g.topIn[f][GoCase(s.Name)] = true
+		}
 	}
 	var excs []*Def
 	for _, d := range g.visibleDefs(f) {
